@@ -338,6 +338,145 @@ def check_no_candidate_removed(rep, prog, rule='R01f'):
                               '`%s` removes candidates that are not exact duplicates: candidates with the same closing edge (and weight) rooted at different trees are '
                               'different circuits; with weight ties a circuit the minimum basis needs disappears from the collection' % m.text(50),
                               key='%s|%s|removed' % (rule, fn.g))
+        # filtered insertion: a candidate is copied into the collection only if a key derived from it has not been seen before
+        for m in fn.walk():
+            if not (m.k == 'CXXMemberCallExpr' and m.callee and m.callee['name'] in ('push_back', 'emplace_back', 'insert') and is_cand_vec(m.object_arg())):
+                continue
+            for (c, pol) in ex.ast_conditions(m):
+                for x in [c.strip_all()] + list(c.walk()):
+                    if x.k == 'CXXMemberCallExpr' and x.callee and x.callee['name'] in ('emplace', 'insert', 'count', 'find', 'contains') and x.object_arg() is not None and \
+                            ((prog.base_type(x.object_arg().strip_all().j.get('t')) or {}).get('rec') or '') in ('std::set', 'std::unordered_set', 'std::map', 'std::unordered_map'):
+                        fields = {y.callee['name'] for a_ in x.args() for y in [a_] + list(a_.walk())
+                                  if y.k == 'CXXMemberCallExpr' and y.callee and y.callee['name'] in ('tree', 'edge', 'weight')}
+                        if not fields:
+                            continue
+                        n += 1
+                        what = 'no candidate cycle is removed from a collection unless it duplicates another one exactly (same tree and same closing edge)'
+                        if {'tree', 'edge'} <= fields:
+                            rep.ok(rule, m, fn, what, 'filter key contains tree and edge')
+                        else:
+                            rep.violation(rule, m, fn, what, 'a candidate is kept only if its key (%s) is new (`%s`): candidates of different trees with the same closing edge '
+                                          '(and weight) are different circuits; with weight ties a circuit the minimum basis needs never enters the collection' % (
+                                              ', '.join(sorted(fields)), x.text(50)), key='%s|%s|filtered' % (rule, fn.g))
+    return n
+
+
+def check_horton_roots(rep, prog, fn):
+    """R14f: Horton's collection has a shortest-path tree rooted at every vertex that can lie on a cycle.  A root may only be skipped when
+    no cycle runs through it (degree <= 1); a skip for degree 2 loses the cycle of a component that is a plain ring (no branching vertex at
+    all), so the collection no longer contains a minimum basis and the FVS / ISO collections are no longer sub-collections of it."""
+    what = 'Horton\'s collection roots a tree at every vertex of degree >= 2'
+    cfg = fn.cfg
+    from .c10 import guards_formula
+    builds = [c for c in fn.walk() if c.k == 'CXXMemberCallExpr' and c.callee and c.callee['name'] in ('emplace_back', 'push_back') and
+              c.object_arg() is not None and 'SPTree' in ((prog.base_type(c.object_arg().strip_all().j.get('t')) or {}).get('canon') or '')]
+    if not builds:
+        rep.undecided('R14f', fn.body, fn, what, 'no tree construction found (helper?)')
+        return
+    for b in builds:
+        lp = b.enclosing('ForStmt', 'CXXForRangeStmt', 'WhileStmt')
+        if lp is None or not any(x.k == 'CallExpr' and x.callee and x.callee['g'] == 'boost::vertices' for x in lp.walk()):
+            rep.undecided('R14f', b, fn, what, 'trees are not built in a loop over vertices(g)')
+            continue
+
+        def atomize(leaf):
+            s_ = leaf.strip_all()
+            if s_.k == 'BinaryOperator' and s_.op in ('<', '<=', '>', '>=', '==', '!=') and len(s_.c) == 2:
+                l_, r_, op = s_.c[0].strip_all(), s_.c[1].strip_all(), s_.op
+                def is_deg(e):
+                    e = ex.alias_of(fn, e) if e.k == 'DeclRefExpr' else e
+                    v_ = ex.var_of(e)
+                    if v_ is not None and ex.unique_def(fn, v_) is not None:
+                        e = ex.unique_def(fn, v_).strip_all()
+                    return e.k == 'CallExpr' and e.callee and e.callee['g'] in ('boost::out_degree', 'boost::degree', 'boost::in_degree')
+                if is_deg(r_) and l_.cv is not None:
+                    l_, r_ = r_, l_
+                    op = {'<': '>', '<=': '>=', '>': '<', '>=': '<=', '==': '==', '!=': '!='}[op]
+                if is_deg(l_) and r_.cv is not None:
+                    k = r_.cv
+                    # atoms d0 (degree 0), d1, d2, d3 (degree >= 3, represented by 3 and a large value)
+                    vals = {nm: all(_cmp(dv, op, k) for dv in dvs) if nm != 'd3' else None for nm, dvs in (('d0', (0,)), ('d1', (1,)), ('d2', (2,)))}
+                    f = ex.FALSE
+                    for nm, dv in (('d0', 0), ('d1', 1), ('d2', 2), ('d3', 3), ('d9', 1000)):
+                        if _cmp(dv, op, k):
+                            f = ex.f_or(f, ex.f_atom(nm))
+                    return f
+            return None
+        g_ = guards_formula(cfg, b, atomize)
+        inner = [a_ for a_ in ex.f_atoms(g_) if isinstance(a_, tuple) and a_ and a_[0] == 'opaque' and lp.is_ancestor_of(fn.nodes[a_[1]]) and
+                 not (lp.cond is not None and lp.cond.is_ancestor_of(fn.nodes[a_[1]]))]
+        degs = ('d0', 'd1', 'd2', 'd3', 'd9')
+        skipped = []
+        for dn in degs:
+            envv = {a_: True for a_ in ex.f_atoms(g_) if a_ not in degs}
+            envv.update({x: (x == dn) for x in degs})
+            if any(a_ in degs for a_ in ex.f_atoms(g_)) and not ex.f_eval(g_, envv):
+                skipped.append(dn)
+        harmful = [d_ for d_ in skipped if d_ in ('d2', 'd3', 'd9')]
+        if harmful:
+            rep.violation('R14f', b, fn, what, 'no tree is rooted at a vertex of degree %s: the cycle of a component that is a plain ring (every vertex has degree 2) is in no '
+                          'tree\'s candidate list, so Horton\'s collection misses a basis cycle' % {'d2': '2', 'd3': '3', 'd9': '>= 4'}[harmful[0]],
+                          key='R14f|%s|skip' % fn.g)
+        elif inner:
+            rep.undecided('R14f', b, fn, what, 'a tree is built only under `%s`' % fn.nodes[inner[0][1]].text(40))
+        else:
+            rep.ok('R14f', b, fn, what, 'skipped degrees: %s' % (', '.join(skipped) or 'none'))
+
+
+def _cmp(a, op, b):
+    return {'<': a < b, '<=': a <= b, '>': a > b, '>=': a >= b, '==': a == b, '!=': a != b}[op]
+
+
+def check_candidate_completeness(rep, prog):
+    """R14g: create_candidate_cycles looks at every edge it is given: a return in front of the edge loop may only fire when the tree
+    cannot close any cycle.  `root has fewer than two children` is not such a condition: a non-tree edge incident to the root closes a
+    cycle through it although the whole tree hangs below one child (first-in-path of the root is the root itself)."""
+    what = 'create_candidate_cycles reaches its edge loop whenever the root has a child'
+    n = 0
+    for fn in prog.functions:
+        if fn.implicit or fn.body is None or not fn.g.endswith('SPTree::create_candidate_cycles') or fn.cfg is None:
+            continue
+        sites = [c for c in fn.walk() if c.k == 'CXXMemberCallExpr' and c.callee and c.callee['name'] in ('emplace_back', 'push_back') and
+                 'CandidateCycle' in ((prog.base_type(c.object_arg().strip_all().j.get('t')) or {}).get('canon') or '')]
+        loops = [s_.enclosing('ForStmt', 'WhileStmt', 'CXXForRangeStmt') for s_ in sites]
+        loops = [l_ for l_ in loops if l_ is not None]
+        if not loops:
+            continue        # the forwarding overload
+        n += 1
+        lp = loops[0]
+        head = lp.cond if lp.cond is not None else lp
+        probs, und = [], []
+        for r in ex.returns_of(fn):
+            if lp.is_ancestor_of(r) or fn.cfg.reaches(head, r):
+                continue
+            for (c, pol) in ex.ast_conditions(r):
+                verdict = None
+                for x in [c.strip_all()] + list(c.walk()):
+                    cnt = None
+                    if x.k == 'BinaryOperator' and x.op in ('<', '<=', '>', '>=', '==', '!=') and len(x.c) == 2:
+                        l_, r_, op = x.c[0].strip_all(), x.c[1].strip_all(), x.op
+                        if r_.cv is None and l_.cv is not None:
+                            l_, r_ = r_, l_
+                            op = {'<': '>', '<=': '>=', '>': '<', '>=': '<=', '==': '==', '!=': '!='}[op]
+                        if l_.k == 'CXXMemberCallExpr' and l_.callee and l_.callee['name'] == 'size' and r_.cv is not None and 'children' in l_.text(80):
+                            cnt = lambda k_, op=op, r_=r_: _cmp(k_, op, r_.cv)
+                    elif x.k == 'CXXMemberCallExpr' and x.callee and x.callee['name'] == 'empty' and 'children' in x.text(80):
+                        cnt = lambda k_: k_ == 0
+                    if cnt is not None:
+                        fires = [k_ for k_ in (0, 1, 2, 3) if bool(cnt(k_)) == pol]
+                        verdict = 'bad' if 1 in fires or 2 in fires or 3 in fires else 'ok'
+                        if verdict == 'bad':
+                            probs.append('the return at line %d is taken when the root has %d child(ren) (`%s`): a non-tree edge incident to the root (a heavy chord of a '
+                                         'light path) still closes a cycle through it, and that candidate is lost' % (r.line, [k_ for k_ in fires if k_ > 0][0], c.text(40)))
+                        break
+                if verdict is None:
+                    und.append('return at line %d under `%s`' % (r.line, c.text(40)))
+        if probs:
+            rep.violation('R14g', fn.body, fn, what, '; '.join(probs), key='R14g|%s|early-return' % fn.g)
+        elif und:
+            rep.undecided('R14g', fn.body, fn, what, 'early ' + und[0] + ': not in the idiom table')
+        else:
+            rep.ok('R14g', fn.body, fn, what, 'no return in front of the edge loop')
     return n
 
 
@@ -438,6 +577,8 @@ def check_program(rep, prog):
                 rep.violation('R14c', fn.body, fn, what, 'no tree is built for the feedback vertices', key='R14c|%s|provenance' % fn.g)
             else:
                 rep.undecided('R14c', fn.body, fn, what, '; '.join(unrec) or 'trees / candidates are built in a form outside the idiom list')
+        if fn.g == 'parmcb::detail::HortonCyclesBuilder::operator()':
+            check_horton_roots(rep, prog, fn)
         if fn.g == 'parmcb::detail::ISOCyclesBuilder::operator()':
             what = 'the isometric collection re-emits (tree, edge) pairs read back from guarded Horton candidates only'
             puts = [c for c in fn.walk() if c.k == 'CallExpr' and c.callee and c.callee['g'] == 'boost::put' and len(c.args()) == 3]
@@ -612,6 +753,8 @@ def run(rep, tier):
         rep.rule(r_, d_, floor=0)
     rep.rule('R14b', 'recorded weight formula', floor=2)
     rep.rule('R14c', 'FVS / ISO collections are sub-collections by provenance', floor=2)
+    rep.rule('R14g', 'create_candidate_cycles has no early return that loses candidates through the root', floor=1)
+    rep.rule('R14f', 'Horton\'s collection has a tree for every vertex of degree >= 2', floor=1)
     rep.rule('R14d', 'root node weight is zero', floor=1)
     rep.rule('R12b', 'first-in-path labels for every visited node including the root', floor=1)
     rep.rule('R12a', 'lexicographic comparator consistency', floor=1)
@@ -627,6 +770,7 @@ def run(rep, tier):
     for prog in progs.values():
         _c07.r07k(rep, prog, only_files=('lex_dijkstra', 'detail/util.hpp', 'sptrees', 'cycles.hpp', 'fvs.hpp'))
         check_no_candidate_removed(rep, prog)
+        check_candidate_completeness(rep, prog)
         n += check_program(rep, prog)
         r14e(rep, prog)
         check_live_references(rep, prog)
